@@ -161,6 +161,16 @@ reg(
     "DESIGN.md 5/C08",
 )
 
+reg(
+    "C09",
+    "bounded exhaustive enumeration of paired executions: every labeling of small pools x candidate modes x batch sizes for every pool strategy / classifier / label-aware stream strategy, each of 7 re-encodings compared with the float/NaN baseline under the same tape",
+    "Every subject is executed under 8 (dtype, class renaming, sentinel) encodings with missing_label and classes configured "
+    "consistently on the strategy and its models; indices, utilities and predict_proba must be identical to the baseline and predictions "
+    "must be the re-encoded baseline predictions.",
+    POOL_NOTE + " An encoding counts as rejected (trivial) only if the label predicates themselves reject the (sentinel, dtype) pair.",
+    "DESIGN.md 5/C09",
+)
+
 
 def main():
     props = [json.loads(l) for l in open(os.path.join(HOME, "properties.jsonl"))]
